@@ -27,9 +27,18 @@ type streamReader struct {
 	chunk    int // > 0: deliver at most this many bytes per Read (short reads without error)
 	empties  int // > 0: this many empty reads (0, nil) precede every read that delivers data (allowed by io.Reader)
 	emptyRun int
+	nested   func(read int) // called at the start of every data-delivering Read: a source that itself uses the library (re-entrancy)
+	inNested bool
+	nreads   int
 }
 
 func (s *streamReader) Read(p []byte) (int, error) {
+	if s.nested != nil && !s.inNested {
+		s.inNested = true
+		s.nested(s.nreads)
+		s.inNested = false
+	}
+	s.nreads++
 	if s.empties > 0 && s.emptyRun < s.empties && s.pos < len(s.data) {
 		s.emptyRun++
 		return 0, nil
